@@ -23,6 +23,7 @@ class PoolCheck:
         self.drivers = poolmod.DriverSet()
         self.entries = [e for e in self.pool.entries if e.model.messages]
         self.last_failure = None
+        self.collected = {}
         self.res.extra["pool"] = {"schemas": len(self.pool.entries), "with_messages": len(self.entries),
                                   "build_wall_s": self.pool.meta.get("wall_s"), "build_failures": len(self.pool.failures)}
         feats = {}
@@ -46,6 +47,12 @@ class PoolCheck:
     def fail(self, signature, entry, case, text):
         """record a failing case. Known findings are counted and the search goes on."""
         if self.res.findings.is_known(signature):
+            return
+        if os.environ.get("VERIF_COLLECT"):
+            # triage aid: list every distinct signature instead of stopping at the first
+            self.res.cls("COLLECTED " + signature)
+            if signature not in self.collected:
+                self.collected[signature] = text
             return
         full = {"schema_xml": entry.xml, "model": entry.sch}
         full.update(case)
@@ -71,6 +78,8 @@ class PoolCheck:
 
     def finish(self):
         self.drivers.close()
+        for sig, text in sorted(self.collected.items()):
+            print("COLLECTED %s :: %s" % (sig, text[:300]))
         return self.res.finish()
 
 
